@@ -1,7 +1,7 @@
 (* C08 — the property, clause by clause.  Only statements; every proof is `exact lemma`.
    Every theorem is for EVERY class table t that is well-formed (Spec.wf: closed, acyclic, a
    method name is static everywhere or nowhere) and every declared class n of the object. *)
-From V.C08 Require Import Model Spec ProofsIface ProofsClass ProofsDispatch PropLemmas.
+From V.C08 Require Import Model Spec ProofsIface ProofsClass ProofsDispatch ProofsDecl PropLemmas.
 
 (* "T is the object's class, one of its ancestors, or an interface reachable through
    implements/extends edges": the three separate subtype walks all decide exactly that relation *)
@@ -102,3 +102,17 @@ Theorem like_structural : forall t n c T, wf t = true -> get_class t n = Some c 
   like t n T = like_spec t n T.
 Proof. exact like_structural_l. Qed.
 Print Assumptions like_structural.
+
+(* the hypothesis `acyclic` for interfaces is enforced where interfaces are declared (after fix
+   4b3f319; before it `interface P extends Q {} interface Q extends P {}` was accepted and instanceof
+   then overflowed the Go stack): the declaration that would close an extends cycle is refused, so
+   every table built by accepted declarations from a cycle-free one is cycle-free — whatever the
+   order of declarations, forward references included *)
+Theorem cyclic_declaration_refused : forall t n i e,
+  In e (i_extends i) -> ireach t e n -> declare_iface t n i = None.
+Proof. exact declare_refuses_cycle. Qed.
+Print Assumptions cyclic_declaration_refused.
+Theorem declared_interfaces_stay_acyclic : forall ds t t',
+  declare_ifaces t ds = Some t' -> no_iface_cycle t -> no_iface_cycle t'.
+Proof. exact declare_ifaces_acyclic. Qed.
+Print Assumptions declared_interfaces_stay_acyclic.
